@@ -104,9 +104,24 @@ def h_pair(env):
     env.observe("ref", ref)
     env.observe("imports", sorted(str(i) if not getattr(i, "_vf_sym", False) else i for i in imports) if not env.sym else [i for i in imports])
     check_reference(env, "ref", current, source, tname, pyname, ref, imports)
+    aliases = []
     for stmt in imports:
         alias, _t = pyimport.bind(stmt, current)
+        aliases.append(alias)
         env.check("alias-is-identifier", alias.isidentifier() if hasattr(alias, "isidentifier") else True)
+    if not env.sym:
+        # the same reference resolved by the runtime itself in a real package tree on disk (native only: the import system is C code).
+        # One field is called like the import alias: a field name must not get in the way of the module-level name.
+        import keyword
+
+        from ..spec.pyruntime import resolve_at_runtime
+
+        if any(keyword.iskeyword(c) for c in list(current) + list(source)):
+            return  # `from . import in` is not Python: package components that are keywords are outside the claim (recorded in DESIGN.md)
+        names = ("f",) + tuple(a for a in aliases[:1] if a.isidentifier() and not keyword.iskeyword(a))
+        got, target = resolve_at_runtime([str(c) for c in current], [str(c) for c in source], "enum" if tname.endswith("Kind") else "message", str(pyname), str(ref), [str(i) for i in imports], names)
+        for fname, cls in got.items():
+            env.check("witness:runtime-resolves-to-the-target-class", cls is target, "field %s: %r" % (fname, cls))
 
 
 def _relation(cur, pkg):
